@@ -28,6 +28,10 @@ MCRecallMenuSmall == { <<>>, <<Fin(<<Emit3>>)>>, <<[t |-> "call", c |-> FALSE], 
 
 MCMatchArms == { <<>>, <<Fin(<<Emit1>>)>>, <<[t |-> "check", c |-> FALSE, e |-> "panic"]>> }
 
+MCXKinds == {r.k : r \in FinishExprKinds}
+(* a user-function call accepted in a finish field would break the property: *)
+ASSUME XKinds = {} \/ \E p \in XPrograms : LET o == Run(p) IN o.exit = "Panic" /\ o.io # <<>>
+
 MCExtraSimple == {[t |-> "dassert", c |-> c] : c \in BOOLEAN}
 
 (* base programs for misplaced finish-only statements: each fails (Panic) on some path after
